@@ -8,7 +8,7 @@ def jobs(tier):
     for w,nm,wit,fn in ((0,'ilog','ilog 32','ov_ilog'),(1,'float32-unpack','float32 negative','_float32_unpack'),(2,'render-point','render_point falling','render_point')):
         J.append(Job('kernel-'+nm,'C01/small.c',defs=['-DWHICH=%d'%w,'-DXMAX=%d'%(255 if q else 2047)],unwind=34,object_bits=10,witnesses=[wit],functions=[fn],
             models=['ldexp: CBMC IEEE built-in'] if w==1 else [],bounds='all 32-bit arguments' if w<2 else 'x coordinates < %d, y values < 256 (floor-1 amplitudes)'%(256 if q else 2048),weight=2,solver='kissat'))
-    cfgs=[(1,3,2,1,0),(2,2,2,0,0),(1,3,2,1,1)] if q else [(1,3,2,1,0),(2,2,2,0,0),(1,3,2,1,1),(1,4,2,2,0),(2,3,2,0,1),(1,8,3,2,0),(2,2,3,0,0)]
+    cfgs=[(1,3,2,1,0),(2,2,2,0,0),(1,3,2,1,1),(2,3,2,0,1)] if q else [(1,3,2,1,0),(2,2,2,0,0),(1,3,2,1,1),(1,4,2,2,0),(2,3,2,0,1),(1,8,3,2,0),(2,2,3,0,0)]
     for mt,en,dm,qv,sp in cfgs:
         J.append(Job('unquant-t%d-e%d-d%d%s'%(mt,en,dm,'-sparse' if sp else ''),'C01/unquant.c',defs=['-DMT=%d'%mt,'-DEN=%d'%en,'-DDM=%d'%dm,'-DQV=%d'%max(qv,1),'-DSPARSE=%d'%sp],
             cuts={'sharedbook.c':['_book_maptype1_quantvals']},unwind=max(en*dm+qv+3,10),unwindset=[('ov_ilog',None,34)],object_bits=10,
